@@ -135,7 +135,7 @@ func runSpec(w *out.W, tier string) {
 	w.Rule = "a case is non-trivial when the HCL round trip returned a schema with at least one table; distinct by feature-tag set"
 	n := 500
 	if tier == "thorough" {
-		n = 8000
+		n = 5000
 	}
 	var cases []*specCase
 	for i, sc := range corpusScripts {
